@@ -206,7 +206,7 @@ fn iter_summary<I: Iterator<Item = e57::Result<Vec<RecordValue>>>>(it: I) -> Str
 /// RD <fault> <devhex>: open, list point clouds, read each with the raw iterator
 pub fn run_rd(toks: &[&str]) -> String {
     let fault = if toks[0] == "-" { None } else { Some(toks[0].parse().unwrap()) };
-    let dev = Dev::new(unhex(toks[1]), fault);
+    let dev = Dev::new(resolve_dev(toks[1]), fault);
     let r = guard(|| E57Reader::new(dev.clone()));
     let mut r = match r {
         None => return "open:P".to_string(),
@@ -230,7 +230,7 @@ pub fn run_rd(toks: &[&str]) -> String {
 /// OPEN <fault> <devhex>
 pub fn run_open(toks: &[&str]) -> String {
     let fault = if toks[0] == "-" { None } else { Some(toks[0].parse().unwrap()) };
-    let dev = Dev::new(unhex(toks[1]), fault);
+    let dev = Dev::new(resolve_dev(toks[1]), fault);
     // stop counting operations once the XML is in memory: the model's reader_open ends there
     match guard(|| E57Reader::new(dev.clone())) {
         None => "P".to_string(),
@@ -252,7 +252,7 @@ pub fn run_open(toks: &[&str]) -> String {
 /// BLOBRD <fault> <devhex> <offset> <length>
 pub fn run_blobrd(toks: &[&str]) -> String {
     let fault = if toks[0] == "-" { None } else { Some(toks[0].parse().unwrap()) };
-    let dev = Dev::new(unhex(toks[1]), fault);
+    let dev = Dev::new(resolve_dev(toks[1]), fault);
     let mut r = match guard(|| E57Reader::new(dev.clone())) {
         None => return "open:P".to_string(),
         Some(Err(e)) => return format!("open:e{}", err_name(&e)),
@@ -274,7 +274,7 @@ pub fn run_blobrd(toks: &[&str]) -> String {
 
 pub fn run_vcrc(toks: &[&str]) -> String {
     let fault = if toks[0] == "-" { None } else { Some(toks[0].parse().unwrap()) };
-    let dev = Dev::new(unhex(toks[1]), fault);
+    let dev = Dev::new(resolve_dev(toks[1]), fault);
     match guard(|| E57Reader::validate_crc(dev.clone())) {
         None => "P".to_string(),
         Some(Ok(ps)) => format!("ok {}", ps),
@@ -284,10 +284,70 @@ pub fn run_vcrc(toks: &[&str]) -> String {
 
 pub fn run_rawxml(toks: &[&str]) -> String {
     let fault = if toks[0] == "-" { None } else { Some(toks[0].parse().unwrap()) };
-    let dev = Dev::new(unhex(toks[1]), fault);
+    let dev = Dev::new(resolve_dev(toks[1]), fault);
     match guard(|| E57Reader::raw_xml(dev.clone())) {
         None => "P".to_string(),
         Some(Ok(x)) => format!("ok n={} h={}", x.len(), fnv_hex(fnv_bytes(FNV_INIT, &x))),
         Some(Err(e)) => format!("e{}", err_name(&e)),
     }
+}
+
+fn limited_summary<I: Iterator<Item = e57::Result<Vec<RecordValue>>>>(it: I, limit: Option<usize>) -> String {
+    match limit {
+        None => iter_summary(it),
+        Some(n) => iter_summary(it.take(n)),
+    }
+}
+
+/// SESS <fault> <devhex> op... : several read operations on ONE reader
+///   X                                   the XML
+///   R:<off>:<records>:<types>:<limit>   raw iteration of a point cloud given by descriptor (limit = number or all)
+///   B:<off>:<len>                       blob
+pub fn run_sess(toks: &[&str]) -> String {
+    let fault = if toks[0] == "-" { None } else { Some(toks[0].parse().unwrap()) };
+    let dev = Dev::new(resolve_dev(toks[1]), fault);
+    let mut r = match guard(|| E57Reader::new(dev.clone())) {
+        None => return "open:P".to_string(),
+        Some(Err(e)) => return format!("open:e{}", err_name(&e)),
+        Some(Ok(r)) => r,
+    };
+    let mut outs = vec!["open:ok".to_string()];
+    for t in &toks[2..] {
+        let parts: Vec<&str> = t.split(':').collect();
+        let o = match parts[0] {
+            "X" => format!("xml={}", fnv_hex(fnv_bytes(FNV_INIT, r.xml().as_bytes()))),
+            "R" => {
+                let mut pc = e57::PointCloud::default();
+                pc.file_offset = parts[1].parse().unwrap();
+                pc.records = parts[2].parse().unwrap();
+                pc.prototype = parts[3]
+                    .split(',')
+                    .filter(|x| !x.is_empty())
+                    .enumerate()
+                    .map(|(i, t)| Record {
+                        name: RecordName::Unknown { namespace: "v".to_string(), name: format!("a{}", i) },
+                        data_type: parse_type(t),
+                    })
+                    .collect();
+                let limit = if parts[4] == "all" { None } else { Some(parts[4].parse().unwrap()) };
+                match guard(|| r.pointcloud_raw(&pc)) {
+                    None => "new:P".to_string(),
+                    Some(Err(e)) => format!("new:e{}", err_name(&e)),
+                    Some(Ok(it)) => limited_summary(it, limit),
+                }
+            }
+            "B" => {
+                let blob = Blob::new(parts[1].parse().unwrap(), parts[2].parse().unwrap());
+                let mut out = Vec::new();
+                match guard(|| r.blob(&blob, &mut out)) {
+                    None => "P".to_string(),
+                    Some(Ok(n)) => format!("ok n={} h={}", n, fnv_hex(fnv_bytes(FNV_INIT, &out))),
+                    Some(Err(e)) => format!("e{}", err_name(&e)),
+                }
+            }
+            _ => panic!("bad sess op"),
+        };
+        outs.push(o);
+    }
+    outs.join(" # ")
 }
